@@ -2,9 +2,8 @@
 #include "checks_common.hpp"
 
 // ------------------------------------------------------------------ shared: judge one call against the model (C04 rules)
-struct RecJudge { Verdict v; bool conclusive = false; std::string sig; Expected exp; };
 
-RecJudge judge_record(const CallView &cv, const RunResult &r, bool require_before_exec = true) {
+RecJudge judge_record(const CallView &cv, const RunResult &r, bool require_before_exec) {
     RecJudge j;
     CallCtx ctx = make_ctx(cv.w, *cv.op, r, cv.opi);
     Expected e = model_call(cv.w, *cv.op, ctx);
@@ -21,6 +20,7 @@ RecJudge judge_record(const CallView &cv, const RunResult &r, bool require_befor
     // nothing may appear at any other sink
     for (auto &d : all) if (d.sink != e.sink && !d.bytes.empty()) { j.v = bad("record-at-wrong-sink", at + "configured sink " + e.sink + ", but " + d.sink + " received " + show(d.bytes)); return j; }
     if (!e.sink_usable) { j.conclusive = false; return j; }
+    if (e.sink.compare(0, 5, "sock:") == 0 && !e.records.empty() && e.records[0].size() > 200000) { j.conclusive = false; return j; }   // EMSGSIZE is a fault kind (C03)
     std::vector<const Delivery *> mine, mine_all;
     for (auto &d : before) if (d.sink == e.sink && !d.bytes.empty()) mine.push_back(&d);
     for (auto &d : all) if (d.sink == e.sink && !d.bytes.empty()) mine_all.push_back(&d);
